@@ -46,6 +46,7 @@ Section Sig.
     | TCoef c fs => KTup [KStr "Coefficient"; KNat c; KNat fs]
     | TLabel c => KTup [KStr "Label"; KNat c]
     | TRepr ps => KStr (render ps)                     (* repr / f-string signature data *)
+    | TGeo k m => KTup [KStr "Geo"; KStr k; KNat m]    (* (class name,) + domain signature data *)
     end.
 
   Definition norm_tdata (d : tdata) : tdata :=
@@ -66,18 +67,18 @@ Section Sig.
 
   Theorem C11_thd_inj : forall d e, thd d = thd e -> norm_tdata d = norm_tdata e.
   Proof.
-    intros d e E. destruct d, e; simpl in *; try discriminate.
+    intros d e E.
+    destruct d as [l | n p fs | c fs | c | ps | k m], e as [l' | n' p' fs' | c' fs' | c' | ps' | k' m'];
+      simpl in *; try discriminate;
+      (* a multi-index against a tagged tuple: the first element is an int, not a string *)
+      try (destruct l as [|i l]; simpl in E; try discriminate; destruct i; discriminate);
+      try (destruct l' as [|i l']; simpl in E; try discriminate; destruct i; discriminate).
     - injection E as E. f_equal. apply (map_inj idx_tok idx_tok_inj), E.
-    - destruct l as [|i [|j l]]; simpl in E; try discriminate. destruct i; discriminate.
-    - destruct l as [|i l]; simpl in E; try discriminate. destruct i; discriminate.
-    - destruct l as [|i l]; simpl in E; try discriminate. destruct i; discriminate.
-    - destruct l as [|i l]; simpl in E; try discriminate. destruct i; discriminate.
     - injection E as E1 E2 E3. apply part_tok_inj in E2. congruence.
-    - destruct l as [|i l]; simpl in E; try discriminate. destruct i; discriminate.
     - injection E as E1 E2. congruence.
-    - destruct l as [|i l]; simpl in E; try discriminate. destruct i; discriminate.
     - injection E as E1. congruence.
     - injection E as E1. rewrite E1. reflexivity.
+    - injection E as E1 E2. congruence.
   Qed.
 
   Lemma thd_norm d : thd (norm_tdata d) = thd d.
